@@ -230,6 +230,8 @@ func ruleC01(r *Report) {
 	checkXRV(r, sc, "C01.xrv", sortedFns(p, sc.Consume))
 	checkSamePath(r, m, sr)
 	checkReturned(r, m, "C01.sigtoken")
+	r.Rule("C01.unmodified", "what is returned is what was unmarshalled from the verified element: on the consuming paths the SP stores nothing into a field of an Assertion (or of a structure inside one) that came out of an unmarshal step or out of the assertion list; composite literals of such types built for outgoing messages are fresh values and not concerned", 1)
+	safely(r, func() { checkAssertionUnmodified(r, p, sc, sr, "C01.unmodified") })
 	r.Rule("C01.decoder", "UnmarshalXML methods of schema types decode only through Decoder.DecodeElement into an alias struct (no hand-written token loops: encoding/xml itself joins character data across comments, a token loop need not)", 7)
 	checkDecoderDiscipline(r, sc, "C01.decoder")
 }
@@ -1978,4 +1980,102 @@ func throughParams(fc *FuncCtx, v ssa.Value) (*FuncCtx, ssa.Value) {
 		break
 	}
 	return fc, v
+}
+
+// checkAssertionUnmodified: see C01.unmodified.
+func checkAssertionUnmodified(r *Report, p *Prog, sc *Scope, sr *sigRoles, rule string) {
+	at := p.NamedType("saml", "Assertion")
+	if at == nil {
+		panic(unresolved{"type saml.Assertion"})
+	}
+	// struct types of the root package reachable from Assertion
+	inside := map[*types.Named]bool{}
+	var add func(t types.Type)
+	add = func(t types.Type) {
+		switch x := t.(type) {
+		case *types.Pointer:
+			add(x.Elem())
+		case *types.Slice:
+			add(x.Elem())
+		case *types.Named:
+			if inside[x] || x.Obj().Pkg() == nil || x.Obj().Pkg().Path() != modPath {
+				return
+			}
+			st, ok := x.Underlying().(*types.Struct)
+			if !ok {
+				return
+			}
+			inside[x] = true
+			for i := 0; i < st.NumFields(); i++ {
+				add(st.Field(i).Type())
+			}
+		}
+	}
+	add(at)
+	// a local that an unmarshal step fills is the parsed value, not a fresh literal
+	filled := func(al *ssa.Alloc) bool {
+		for _, rf := range *al.Referrers() {
+			mi, ok := rf.(*ssa.MakeInterface)
+			if !ok {
+				continue
+			}
+			for _, r2 := range *mi.Referrers() {
+				if c, ok := r2.(*ssa.Call); ok && c.Call.StaticCallee() != nil && (sr.Unmarshal[c.Call.StaticCallee()] || c.Call.StaticCallee().String() == "encoding/xml.Unmarshal") {
+					return true
+				}
+			}
+		}
+		return false
+	}
+	n := 0
+	bad := ""
+	for _, fn := range sortedFns(p, sc.Consume) {
+		if fn.Pkg == nil || fn.Pkg.Pkg.Path() != modPath {
+			continue
+		}
+		// the decoders themselves (encoding/xml's and encoding's unmarshaler methods) fill their receiver: that is the
+		// unmarshal step (judged by C01.decoder and C15.alias-pairs)
+		if fn.Signature.Recv() != nil && strings.HasPrefix(fn.Name(), "Unmarshal") {
+			continue
+		}
+		for _, b := range fn.Blocks {
+			for _, in := range b.Instrs {
+				st, ok := in.(*ssa.Store)
+				if !ok {
+					continue
+				}
+				// the address: a field (of a field ...) of a value of one of these types
+				var owner *types.Named
+				cur := st.Addr
+				for i := 0; i < 8; i++ {
+					switch x := cur.(type) {
+					case *ssa.FieldAddr:
+						if nm := namedOf(derefType(x.X.Type())); nm != nil && inside[nm] {
+							owner = nm
+						}
+						cur = x.X
+						continue
+					case *ssa.IndexAddr:
+						cur = x.X
+						continue
+					case *ssa.UnOp:
+						cur = x.X
+						continue
+					}
+					break
+				}
+				if owner == nil {
+					continue
+				}
+				n++
+				if al, isAl := cur.(*ssa.Alloc); isAl && !filled(al) {
+					continue // a literal under construction (an outgoing message, an error value)
+				}
+				if bad == "" {
+					bad = fmt.Sprintf("%s stores into a field of %s at %s", p.FnName(fn), owner.Obj().Name(), p.InstrPos(st))
+				}
+			}
+		}
+	}
+	r.Check(bad == "", rule, "the consuming paths leave parsed assertions as they were unmarshalled", "-", fmt.Sprintf("%d stores into assertion-typed structures on the consuming paths, all into literals under construction", n), "a parsed assertion is modified after it was verified ("+bad+"): the content returned is not the content the signature covered")
 }
